@@ -15,7 +15,7 @@ func propC03() Property {
 		ID: "C03",
 		Explanation: "R1 (clip guard): the requested end is replaced by (next outbound − 1) exactly under {end = 0 ∧ BeginString ≥ FIX.4.2} ∨ {end = 999999 ∧ BeginString ≤ FIX.4.2} ∨ {end ≥ next outbound}, and the replay runs from the requested begin to that end. " +
 			"R2 (stamping order): the replay stamper sets PossDupFlag(43)=Y and OrigSendingTime(122) ← SendingTime(52) read BEFORE tag 52 is rewritten, then rewrites tag 52. R3: a stored message is re-sent only when it is not administrative and the application's resend callback agreed; otherwise its number is covered by a gap fill. " +
-			"R4 (body identity): replayed bytes are buildWithBodyBytes(bodyBytes of the message parsed from the stored bytes), under its original MsgSeqNum (tag 34 is not touched by the stamper). R5 (gap fill): SequenceReset(4) with MsgSeqNum(34) ← begin parameter, NewSeqNo(36) ← end parameter, GapFillFlag(123)=Y, PossDupFlag(43)=Y; gap fills are emitted before a re-sent message when numbers were skipped and after the loop for the tail, with NewSeqNo = the next number replayed; the end of the tail gap fill is a cursor the replay callback advances past EVERY message it returns nil for (re-sent, administrative or declined), to that message's number + 1. R6 (what bodyBytes is): in the message parser the mark that ends the body (trailerBytes ← remaining bytes) is moved only after a field that was classified as a body field or group member — never after the header/trailer field that terminates a repeating group — so the bytes replayed as the body exclude CheckSum/Signature.",
+			"R4 (body identity): replayed bytes are buildWithBodyBytes(bodyBytes of the message parsed from the stored bytes), under its original MsgSeqNum (tag 34 is not touched by the stamper). R5 (gap fill): SequenceReset(4) with MsgSeqNum(34) ← begin parameter, NewSeqNo(36) ← end parameter, GapFillFlag(123)=Y, PossDupFlag(43)=Y; gap fills are emitted before a re-sent message when numbers were skipped and after the loop for the tail, with NewSeqNo = the next number replayed; the end of the tail gap fill is a cursor the replay callback advances past EVERY message it returns nil for (re-sent, administrative or declined), to that message's number + 1. R6 (what bodyBytes is): in the message parser the mark that ends the body (trailerBytes ← remaining bytes) is moved only after a field that was classified as a body field or group member — never after the header/trailer field that terminates a repeating group — so the bytes replayed as the body exclude CheckSum/Signature; and conversely every extracted field that is filed into the Body has moved the mark past itself first, so the replayed body does not lose its last field. R7 (shared with C02-R5): the replay — the iteration and everything the replay function sends after it — runs under resendMutex(W).",
 		NotDecided: "contiguity of coverage as arithmetic over the stored history (the seqNum/nextSeqNum bookkeeping over all histories); byte-for-byte identity of the transmitted frame.",
 		Rules: []RuleDef{
 			{ID: "C03-R1", Desc: "ResendRequest range clipping", Min: 2, Run: c03R1},
@@ -24,6 +24,7 @@ func propC03() Property {
 			{ID: "C03-R4", Desc: "replayed body bytes and sequence number are the stored ones", Min: 3, Run: c03R4},
 			{ID: "C03-R5", Desc: "gap-fill field binding and placement", Min: 6, Run: c03R5},
 			{ID: "C03-R6", Desc: "the end-of-body mark moves only over body fields", Min: 3, Run: c03R6},
+			{ID: "C03-R7", Desc: "the whole reply to a ResendRequest is sent under the resend lock (= C02-R5)", Min: 3, Run: c02R5},
 		},
 	}
 }
@@ -413,7 +414,9 @@ func c03R5(c *Ctx) {
 	for _, cl := range Calls(replay) {
 		if cal := cl.Common().StaticCallee(); cal != nil && isBuilder(cal) && !InstrDominates(iter, cl) {
 			d := p.ReachCond(cl.Block())
-			okG := d.Implies(func(a *Atom) bool { return a.Rel == "" && a.Val && a.B.Kind == "field" && cn(a.B.Field) == "DisableMessagePersist" })
+			okG := d.Implies(func(a *Atom) bool {
+				return a.Rel == "" && a.Val && a.B.Kind == "field" && cn(a.B.Field) == "DisableMessagePersist"
+			})
 			a := cl.Common().Args
 			endO := p.Origin(a[len(a)-2])
 			okE := endO.Kind == "binop" && endO.Op == token.ADD && endO.X.Kind == "param" && endO.Y.IsConstInt(1)
@@ -470,11 +473,59 @@ func c03R6(c *Ctx) {
 		notHdr := d.Implies(func(a *Atom) bool { return a.Rel == "" && !a.Val && a.B.IsCallTo("isHeaderField") })
 		notTrl := d.Implies(func(a *Atom) bool { return a.Rel == "" && !a.Val && a.B.IsCallTo("isTrailerField") })
 		member := d.Implies(func(a *Atom) bool { return a.Rel == "" && a.Val && a.B.IsCallTo("isGroupMember") })
-		noBody := d.Implies(func(a *Atom) bool { return a.Rel == "" && !a.Val && a.B.Kind == "field" && cn(a.B.Field) == "foundBody" })
+		noBody := d.Implies(func(a *Atom) bool {
+			return a.Rel == "" && !a.Val && a.B.Kind == "field" && cn(a.B.Field) == "foundBody"
+		})
 		c.Check(notHdr && notTrl || member || noBody, name, p.InstrPos(st.Store), "body-end-mark", "end-of-body mark moved only over a body field / group member",
 			"the end-of-body mark (trailerBytes) is moved after extracting a field without knowing that it is a body field (reach "+d.String()+"): when a header or trailer field terminates a repeating group, CheckSum ends up inside bodyBytes and a replay built from them has two CheckSum fields and a wrong BodyLength")
 	}
 	if n < 2 {
 		c.Violation("", "-", "no-body-mark", "the parser does not maintain the end-of-body mark")
+	}
+	// completeness: every field filed into the Body (a single-field add) or joined to a group window
+	// has moved the mark past itself: between its extraction and the filing, trailerBytes ← rawBytes ran
+	fBody := p.Field(modPath, "Message", "Body")
+	fFields := p.Field(modPath, "Message", "fields")
+	nAdd := 0
+	fns := map[*ssa.Function]bool{}
+	for _, st := range p.FieldStores(fTrailer) {
+		fns[st.Fn] = true
+	}
+	for fn := range fns {
+		mf := &MustFlow{Fn: fn, Transfer: func(in ssa.Instruction, s Set) {
+			if isExtract(in) {
+				delete(s, "marked")
+				s["extracted"] = true
+				return
+			}
+			if st, ok := in.(*ssa.Store); ok && fieldAddrOf(st.Addr, fTrailer) != nil {
+				if ld, ok := stripConv(st.Val).(*ssa.UnOp); ok && fieldAddrOf(ld.X, fRaw) != nil {
+					s["marked"] = true
+				}
+			}
+		}}
+		for _, cl := range Calls(fn) {
+			cal := cl.Common().StaticCallee()
+			if cal == nil || cal.Signature.Recv() == nil || typeName(cal.Signature.Recv().Type()) != "FieldMap" || fnName(cal) != "add" || len(cl.Common().Args) != 2 {
+				continue
+			}
+			if !p.Origin(cl.Common().Args[0]).Mentions(func(x *Org) bool { return x.Kind == "field" && x.Field == fBody }) {
+				continue
+			}
+			sl, isSl := stripConv(cl.Common().Args[1]).(*ssa.Slice)
+			if !isSl || !p.Origin(sl.X).IsField(fFields) {
+				continue // a group window: its members moved the mark one by one
+			}
+			before := mf.Before(cl.(ssa.Instruction))
+			if !before["extracted"] {
+				continue // the field was extracted (and classified) by the caller
+			}
+			nAdd++
+			c.Check(before["marked"], FuncName(fn), p.InstrPos(cl.(ssa.Instruction)), "body-field-moves-mark", "a field filed into the body has moved the end-of-body mark past itself",
+				"a field is filed into the Body on a path on which the end-of-body mark was not moved past it after its extraction: when it is the last field of the body, bodyBytes ends before it and a replay built from bodyBytes silently loses the field")
+		}
+	}
+	if nAdd == 0 {
+		c.Violation("", "-", "no-body-adds", "no extracted field is filed into the Body in the functions that maintain the end-of-body mark")
 	}
 }
